@@ -975,7 +975,7 @@ def exercise(ctx, name, seed, kind, others=()):
     ctx.count("sweep:" + ("ok" if res1[0] == "ok" else "raises:%s:%s" % (res1[1], name)))
     diffs = [d for d in (s.changed("arg%d" % i) for i, s in enumerate(snaps)) if d]
     if kind == "inplace_by_contract":
-        ctx.test("inplace_by_contract:converts_its_argument", bool(diffs))
+        ctx.count("inplace_by_contract:%s" % ("argument_converted" if diffs else "argument_bytes_unchanged(birth=0)"))
         plt.close("all")
         return problems
     ctx.test("arguments_unchanged", not diffs)
